@@ -64,14 +64,9 @@ func (d *Deduplicator) NotifyDKGStarted(
 	cacheKey := newDKGSeed.Text(16)
 	// If the key is not in the cache, that means the seed was not handled
 	// yet and the client should proceed with the execution.
-	if !d.dkgSeedCache.Has(cacheKey) {
-		d.dkgSeedCache.Add(cacheKey)
-		return true
-	}
-
-	// Otherwise, the DKG seed is a duplicate and the client should not proceed
-	// with the execution.
-	return false
+	// Add is atomic: it reports whether the key was absent and has just been
+	// inserted, so exactly one of several concurrent deliveries proceeds.
+	return d.dkgSeedCache.Add(cacheKey)
 }
 
 // NotifyRelayEntryStarted notifies the client wants to start relay entry
